@@ -84,7 +84,13 @@ impl DealerSocketOutgoingProcessor {
         );
 
         match self.outgoing_orchestrator.route_message(zmtp_frames_for_logical_message, false).await {
-          Ok(()) => {}
+          Ok(()) => {
+            // A burst of `notify_one()` calls leaves at most one stored permit, so one wake-up may
+            // stand for several queued messages: keep the loop going until the queue is drained.
+            if !self.pending_queue.lock().await.is_empty() {
+              self.queue_activity_notifier.notify_one();
+            }
+          }
           Err((returned, _)) => {
             tracing::debug!(
               "[DealerProc {}] route_message failed (all peers full or no peers). Re-queuing.",
